@@ -134,6 +134,15 @@ reg("C14", "exploration",
     "pickle/copy/deepcopy, the round-tripped CTrait must validate/default/get/set like the original. Sampling for objects.",
     BASE_NOTE, "DESIGN.md 3/C14")
 
+reg("C15", "exploration",
+    "exhaustive enumeration of all short strings over the DSL alphabet + Hypothesis-generated grammar derivations in several spellings, against an independently written recogniser and path-set denotation",
+    "Every string of <=5 (quick) / <=6 (thorough) symbols over a 14-symbol alphabet is classified (accept/reject, ValueError) "
+    "and, if accepted, its compiled ObserverGraphs are flattened to the set of root-to-node paths with notify/optional flags "
+    "and compared with the reference denotation (exhaustive inside the bound); generated derivations (depth<=4) are rendered "
+    "with whitespace/bracket variants and checked for equal patterns, cache stability and add-by-one-spelling / "
+    "remove-by-another. Thorough adds an atheris campaign on the parser.",
+    BASE_NOTE + "The reference is derived from _dsl_grammar.lark and the user manual, not from parsing.py.", "DESIGN.md 3/C15")
+
 
 def main():
     props = [json.loads(l) for l in open(os.path.join(ROOT, "properties.jsonl"))]
